@@ -94,6 +94,15 @@ predicate judged there, "M" = also compared with the extracted model).  "+" mark
                                                   anywhere in key order, identifiers not monotone in the key; sqlite3 or ORM
                                                   builder; complete for the annotation orders of 3 (x file orders) and 4 genomes.
                                                   Driven through load (dir / ctor / load / mem), cli, multi and match            P M (multi, match: P)
+  the genome set AT THE TIME of the call          was: every genome set object was read-only and held the same rows from load_genomeset to
+  ("all genome sets": also one that was edited    close.  + genome-set-edited-between-uses (round 8): a WRITABLE session (file_sessionmaker(
+  after an earlier database was made from it)     readonly=False) + only_genomeset) on a private copy; database made / matching functions
+                                                  called, then the curator edits the set through the session (two genomes exchange their
+                                                  identifiers -- one column or all four --, a genome exchanges with a row outside the set,
+                                                  a member replaced / removed / added, an identifier re-pointed to an unrelated signature
+                                                  of the file or to nothing, a value set to NULL; commit or flush; there and back again),
+                                                  then the SAME genome set object + the SAME signature object go to the constructor / the
+                                                  matching functions again; judged by the oracle on the edited table                P
   gambit query                                    was -d DIR -s FILE -f json.  + cli-forms: csv / archive (closest_match,
                                                   primary_match), --strict, -c, --no-progress, --db, GAMBIT_DB_PATH, genome
                                                   FILES positional and -l (query_parse; distances from the harness's own k-mer
@@ -147,6 +156,13 @@ same result; (e) a second thread.  "old" = a stream that existed before this aud
                                                                                                     `badmatch`: strict KeyError, bad attribute, a
                                                                                                     container that raises half-way; kind match:
                                                                                                     container printed before / after
+  ReferenceDatabase(gset, sigs),  the ReferenceGenomeSet OBJECT and its session      +  +  .  +  -   old: the rows behind a genome set object never
+  genomes_by_id(_subset)          when the rows behind it CHANGE between two calls                  changed while it was alive.  + (round 8) `gsetrw` +
+                                  (anything remembered per genome set object)                       `edit`: construct / match, edit through the session
+                                                                                                    (same count or not, same identifier set or not),
+                                                                                                    construct / match again on the same objects, next
+                                                                                                    to an untouched second genome set; several edits
+                                                                                                    in a row and back to the first table
   jaccarddist_matrix              queries list, db.signatures, db.sig_indices,      +  +  +  +  +   old: harness-global query arrays, never printed.
                                   the returned matrix (out= is DOCUMENTED as                        + per-case copies handed to every call; matrices
                                   written to: judged so)                                            handed out earlier re-read at the end (no shared
@@ -221,7 +237,10 @@ RULE = ('load: genome rows (4 identifier columns, NULLs, rows outside the genome
         'calls failing part-way / worker thread) over 2-3 genome databases of different size, 2-3 signature collections with their own '
         'id_attr, 2 QueryParams objects and 2 query lists made once per case; every step judged as load / match / cli on its own '
         'combination, plus: caller\'s objects, open databases and files unchanged after every step, same call same result, earlier '
-        'results unchanged at the end; non-trivial: >=2 steps ran, some shared object was used by >=2 steps and some step was non-trivial '
+        'results unchanged at the end; stream genome-set-edited-between-uses: the genome set is opened writable on a private copy and '
+        'edited through its session between two constructions / matchings on the same genome set and signature objects (identifiers '
+        'exchanged, re-pointed, set to NULL; members replaced, removed, added; commit or flush), every call judged on the table the set '
+        'holds at that moment; non-trivial: >=2 steps ran, some shared object was used by >=2 steps and some step was non-trivial '
         'as load / match')
 TRUSTED = ['SQLAlchemy/SQLite: `genomeset.genomes.join(...).add_columns(attr)` returns one row per AnnotatedGenome of '
            'the set with the stored column value; `.filter(attr == None).count()` counts the NULLs; `.count()` the rows; '
@@ -240,12 +259,17 @@ TRUSTED = ['SQLAlchemy/SQLite: `genomeset.genomes.join(...).add_columns(attr)` r
            'harness/c04.py file construction (template database + sqlite3 inserts or LAYOUT OPS through sqlite3 / SQLAlchemy, '
            'dump_signatures); layout_walk: the finished file of an op list holds exactly the rows of the case\'s table',
            'kind seq: the interpreter _SeqRun (which slot holds what, closing order, prints obj_print / sigs_print / dir_print of the '
-           'caller\'s objects); CPython copies **kw into a new dict (a callee cannot reach the caller\'s keyword dict)']
+           'caller\'s objects); CPython copies **kw into a new dict (a callee cannot reach the caller\'s keyword dict)',
+           'kind seq, step edit: _SeqRun._edit sets attributes of the loaded Genome objects, deletes / adds AnnotatedGenome objects and '
+           'flushes or commits; it reads the genome set back through the same session and stops the case (harness failure, no verdict) '
+           'unless the session then reports exactly the target table']
 ASSUMPTIONS = ['rows of the genome set are distinct rows (hypothesis NoDup gs of C04_success_iff): primary keys are unique',
                'Python equality of identifier values is equality of (type, value): int vs str never equal; NumPy integers '
                'equal to Python ints of the same value',
                'jaccarddist_array(query, chunk) is map (jaccarddist query) chunk (property C05); chunksize is None or > 0',
-               'the genome database holds exactly one genome set; files do not change while loaded',
+               'the genome database holds exactly one genome set; files do not change while loaded, except that the caller may '
+               'edit a genome set through the very session it was loaded with (kind seq, steps gsetrw / edit: flushed or committed '
+               'before the next call; "the genome\'s value" is then the value the session reports at the time of the call)',
                'identifiers are Python / NumPy integers within int64 or strings without NUL (floats and bools, which Python '
                'equates with integers, are not identifiers)',
                'command-line genome-file queries: the query signature is the set of K-mers following the prefix on either strand '
@@ -1792,6 +1816,14 @@ def k_match(ctx, cases):
 #   ['badquery', h, how, p, q]       a query that fails part-way (SEQ_BADQ)
 #   ['badmatch', g, how, si]         a matching call that fails part-way (SEQ_BADM)
 #   ['badload', d, how]              load_from_dir on a damaged COPY of d (SEQ_BADL)
+#   ['gsetrw', g, gi]                g := the genome set of a PRIVATE writable copy of genome database gsets[gi], opened with
+#                                    file_sessionmaker(path, readonly=False) + only_genomeset (session + genome set kept open;
+#                                    the copy is in no database directory, so nothing else ever reads it)
+#   ['edit', g, gi2, how]            the genome set in slot g (opened by gsetrw) is EDITED through its own ORM session until it
+#                                    holds the table gsets[gi2] (same primary keys; identifier values of Genome objects set,
+#                                    AnnotatedGenome objects deleted / added), then how = commit | flush.  Databases made from the
+#                                    slot before are dropped (the property says nothing about them); from now on the slot is
+#                                    judged as gsets[gi2].  Skipped when the slot is not writable or the primary keys differ.
 # A step whose slot is not open (hand-edited replay) is skipped and counted.
 # ------------------------------------------------------------------------------------------------
 
@@ -1801,6 +1833,7 @@ SEQ_BADQ = ('iter-raises', 'empty', 'float-query', 'inputs-short', 'out-shape')
 SEQ_BADM = ('strict-missing', 'bad-attr', 'ids-raise')
 SEQ_BADL = ('truncated-sigs', 'junk-sigs', 'junk-genomes', 'no-sigs', 'two-sigs', 'missing-dir', 'wrong-genome-name')
 SEQ_NAMES = [['genomes.gdb', 'signatures.gs'], ['refs.db', 'refs.h5'], ['a#b.gdb', 'x.tar.gs'], ['g.db', 's.gs']]
+SEQ_EDIT_HOWS = ('commit', 'flush')
 SEQ_SLOTS = 4
 SEQ_IDFORMS = ('list', 'tuple', 'npscalars', 'strided') + STR_STORE + ('i8', 'u8')
 
@@ -1863,6 +1896,10 @@ def seq_validate(case):
 				ok = len(a) == 3 and idx(a[0], SEQ_SLOTS) and a[1] in SEQ_BADM and idx(a[2], len(sigfiles))
 			elif op == 'badload':
 				ok = len(a) == 2 and idx(a[0], len(dirs)) and a[1] in SEQ_BADL
+			elif op == 'gsetrw':
+				ok = len(a) == 2 and idx(a[0], SEQ_SLOTS) and idx(a[1], len(gsets))
+			elif op == 'edit':
+				ok = len(a) == 3 and idx(a[0], SEQ_SLOTS) and idx(a[1], len(gsets)) and a[2] in SEQ_EDIT_HOWS
 			if not ok:
 				return False
 		return True
@@ -1969,6 +2006,7 @@ class _SeqRun:
 		self.used = {}             # shared object -> number of steps that used it
 		self.nontrivial = False
 		self.evaluated = 0
+		self.nrw = 0
 
 	# ---- files -----------------------------------------------------------------------------------------
 	def _paths(self, n):
@@ -2417,6 +2455,34 @@ class _SeqRun:
 				self.ctx.count(f'seq:badmatch {how}: {type(e).__name__}')
 		elif op == 'badload':
 			self.what = self._bad_load(st, a[0], a[1])
+		elif op == 'gsetrw':
+			from gambit.db.sqla import file_sessionmaker
+			from gambit.db.models import only_genomeset
+			g, gi = a
+			self._close_gslot(g)
+			self.nrw += 1
+			path = os.path.join(self.root, f'rw{self.nrw}.gdb')
+			shutil.copyfile(self._master('g', gi), path)
+			try:
+				session = file_sessionmaker(path, readonly=False)()
+				gset = only_genomeset(session)
+			except Exception as e:     # noqa
+				self.trace.append(f'{st}: {type(e).__name__}')
+				self.what = f'only_genomeset failed with {type(e).__name__} ({e}) on a genome database file that holds exactly one genome set'
+			else:
+				self.gslots[g] = dict(session=session, gset=gset, g=gi, src=f'rw{self.nrw}', rw=True)
+				self.trace.append(f'{st}: ok')
+		elif op == 'edit':
+			g, gi2, how = a
+			G = self.gslots.get(g)
+			if not G or not G.get('rw') or {r[0] for r in case['gsets'][G['g']]} != {r[0] for r in case['gsets'][gi2]}:
+				return 'skipped'
+			for h in [h for h, H in self.handles.items() if H.get('gslot') is G]:
+				self._close_handle(h)
+			self._use(f'gslot{g}:{G["src"]}')
+			n = self._edit(G, gi2, how)
+			self.ctx.count(f'seq:edit {how}: ' + ('nothing to change' if not n else 'genome set changed'))
+			self.trace.append(f'{st}: {n} changes')
 		else:
 			return 'skipped'
 		self.evaluated += 1
@@ -2425,6 +2491,47 @@ class _SeqRun:
 			if bad:
 				self.what = 'after this step ' + bad
 		return None
+
+	def _edit(self, G, gi2, how):
+		"""the caller edits the genome set of slot G through its ORM session until it holds the table gsets[gi2]; -> number of
+		changes.  Values under a UNIQUE constraint are first moved out of the way (flush), so that two genomes may exchange their
+		values.  The harness then reads the set back through the same session (its own check, RuntimeError if the edit did not
+		arrive: a harness failure, not a verdict)."""
+		from gambit.db.models import Genome, AnnotatedGenome, Taxon
+		session, gset = G['session'], G['gset']
+		cur = {r[0]: r for r in self.case['gsets'][G['g']]}
+		tgt = {r[0]: r for r in self.case['gsets'][gi2]}
+		objs = {int(o.id): o for o in session.query(Genome).all()}
+		if set(objs) != set(cur):
+			raise RuntimeError(f'edit: the session holds genomes {sorted(objs)}, the table {sorted(cur)}')
+		cols = {1: 'key', 2: 'genbank_acc', 3: 'refseq_acc', 4: 'ncbi_id'}
+		changed = [(pk, c) for pk in sorted(cur) for c in cols if cur[pk][c] != tgt[pk][c] or type(cur[pk][c]) is not type(tgt[pk][c])]
+		if changed:
+			for pk, c in changed:
+				setattr(objs[pk], cols[c], f'being-edited/{pk}' if c == 1 else None)
+			session.flush()
+			for pk, c in changed:
+				setattr(objs[pk], cols[c], tgt[pk][c])
+		n = len(changed)
+		annotated = {int(x.genome_id): x for x in gset.genomes}
+		taxon = session.query(Taxon).order_by(Taxon.id).first()
+		for pk in sorted(cur):
+			if cur[pk][6] and not tgt[pk][6]:
+				session.delete(annotated[pk])
+				n += 1
+			elif tgt[pk][6] and not cur[pk][6]:
+				session.add(AnnotatedGenome(genome_set=gset, genome=objs[pk], taxon=taxon, organism=f'organism {pk}'))
+				n += 1
+		if how == 'commit':
+			session.commit()
+		else:
+			session.flush()
+		G['g'] = gi2
+		rows = sorted(self._genome_rows(session, gset.genomes.all()))
+		want = sorted(list(r[:5]) for r in tgt.values() if r[6])
+		if rows != want:
+			raise RuntimeError(f'edit: the genome set reads {rows} through its session after the edit, the table says {want}')
+		return n
 
 	def _bad_query(self, db, how, P, Q):
 		from gambit.query import query
@@ -3818,6 +3925,180 @@ def gen_seq(ctx, rng):
 		n_q += 1
 	ctx.count('stream:sequences-over-shared-objects', n_q)
 
+# ---- generator of sequence cases in which a genome set is EDITED between two uses (round 8) ----------------
+
+SEQ_EDIT_KINDS = ('swap-in-set', 'swap-one-column', 'swap-with-outside', 'replace-member', 'remove-member', 'add-member',
+                  'repoint-to-unrelated', 'repoint-to-nothing', 'null-value')
+
+
+def seq_edit_variant(rng, table, kind, attr):
+	"""the genome table `table` after the curator's edit `kind`, aimed at identifier attribute `attr` (same primary keys, so
+	the edit can be made on the loaded objects); None if the table has no room for that edit.  What the edited set must do
+	with a signature collection is NOT decided here: the oracle reads the edited table like any other."""
+	rows = [list(r) for r in table]
+	col = 1 + ATTRS.index(attr)
+	ins, outs = [r for r in rows if r[6]], [r for r in rows if not r[6]]
+	if kind in ('swap-in-set', 'swap-one-column'):
+		if len(ins) < 2:
+			return None
+		A, B = rng.sample(ins, 2)
+		for c in ([col] if kind == 'swap-one-column' else [1, 2, 3, 4]):
+			A[c], B[c] = B[c], A[c]
+	elif kind == 'swap-with-outside':
+		if not ins or not outs:
+			return None
+		A, B = rng.choice(ins), rng.choice(outs)
+		for c in ([col] if rng.random() < 0.5 else [1, 2, 3, 4]):
+			A[c], B[c] = B[c], A[c]
+	elif kind == 'replace-member':
+		if not ins or not outs:
+			return None
+		rng.choice(ins)[6] = False
+		rng.choice(outs)[6] = True
+	elif kind == 'remove-member':
+		if len(ins) < 2:
+			return None
+		rng.choice(ins)[6] = False
+	elif kind == 'add-member':
+		if not outs:
+			return None
+		rng.choice(outs)[6] = True
+	elif kind == 'repoint-to-unrelated':      # the identifier of an unrelated signature, if the collection holds one
+		if not ins:
+			return None
+		rng.choice(ins)[col] = foreign_id(attr, rng.choice([0, 0, 1, 2]))
+	elif kind == 'repoint-to-nothing':
+		if not ins:
+			return None
+		rng.choice(ins)[col] = foreign_id(attr, 500 + rng.randrange(3))
+	elif kind == 'null-value':
+		if not ins:
+			return None
+		rng.choice(ins)[col] = foreign_id(attr, 600) if attr == 'key' else None
+	else:
+		return None
+	return rows if rows != [list(r) for r in table] else None
+
+
+def seq_edit_universe(rng):
+	"""a universe of seq_universe in which every genome set loads with collection 0, plus for two of its genome databases a few
+	edited variants (appended to gsets) -> (u, {base index: [variant index ...]}) or None"""
+	for attempt in range(40):
+		u = seq_universe(rng)
+		if seq_validate(u) and all(oracle(seq_combined(u, g, 0))['must_load'] for g in range(len(u['gsets']))):
+			break
+	else:
+		return None
+	n_g = len(u['gsets'])
+	variants = {}
+	for base in rng.sample(range(n_g), 2):
+		variants[base] = []
+		for kind in rng.sample(SEQ_EDIT_KINDS, 3):
+			si = 0 if rng.random() < 0.7 else rng.randrange(len(u['sigfiles']))
+			prev = u['gsets'][rng.choice([base] + variants[base])]      # edits build on each other now and then
+			v = seq_edit_variant(rng, prev, kind, u['sigfiles'][si]['attr'])
+			if v is not None and v not in u['gsets']:
+				u['gsets'].append(v)
+				variants[base].append(len(u['gsets']) - 1)
+				u.setdefault('edits', []).append([base, kind])
+	if not any(variants.values()) or not seq_validate(u):
+		return None
+	return u, {b: v for b, v in variants.items() if v}
+
+
+def seq_edit_templates(rng, u, variants):
+	"""scripts around one edit each: construct, edit, construct AGAIN from the same genome set object and the same signature
+	object; the matching functions before and after; a second (read-only) genome set next to it; there and back again"""
+	out = []
+	n_s = len(u['sigfiles'])
+	attr0 = u['sigfiles'][0]['attr']
+	other_s = (1 % n_s)
+	for base, vs in sorted(variants.items()):
+		for v in vs:
+			how, how2 = rng.choice(SEQ_EDIT_HOWS), rng.choice(SEQ_EDIT_HOWS)
+			sig_open = rng.choice([['sigs', 0, 0], ['memsigs', 0, 0, rng.choice(MEM_SIGS), seq_idform(rng, u, 0)]])
+			out.append(('construct-edit-construct',
+			            [['gsetrw', 0, base], sig_open, ['make', 0, 0, 0, False], ['observe', 0, 0, 0, 'params'], ['edit', 0, v, how],
+			             ['make', 1, 0, 0, False], ['observe', 1, 0, 0, 'params'], ['edit', 0, base, how2], ['make', 0, 0, 0, True],
+			             ['observe', 0, 0, 0, 'params']]))
+			out.append(('match-edit-match',
+			            [['gsetrw', 0, base], ['match', 0, attr0, 0, seq_idform(rng, u, 0), 'str'],
+			             ['match', 0, u['sigfiles'][other_s]['attr'], other_s, 'list', 'attribute'], ['edit', 0, v, how],
+			             ['match', 0, attr0, 0, 'list', 'str'], ['match', 0, u['sigfiles'][other_s]['attr'], other_s, 'list', 'attribute'],
+			             ['memsigs', 0, 0, 'list', 'list'], ['make', 0, 0, 0, False], ['observe', 0, 0, 0, 'params']]))
+			out.append(('edited-next-to-untouched-genome-set',
+			            [['gsetrw', 0, base], ['gset', 1, 1 if u['dirs'][0]['g'] == base else 0], sig_open, ['make', 0, 0, 0, False], ['make', 1, 1, 0, False],
+			             ['edit', 0, v, how], ['make', 2, 0, 0, False], ['observe', 1, 0, 0, 'params'], ['observe', 2, 0, 0, 'params'],
+			             ['make', 1, 1, 0, False], ['observe', 1, 0, 0, 'params']]))
+		if len(vs) >= 2:
+			out.append(('several-edits-in-a-row',
+			            [['gsetrw', 0, base], ['sigs', 0, 0], ['make', 0, 0, 0, False]] +
+			            [x for v in vs + [base] for x in (['edit', 0, v, rng.choice(SEQ_EDIT_HOWS)], ['make', 0, 0, 0, False], ['observe', 0, 0, 0, 'params'])]))
+	return out
+
+
+def seq_edit_random_steps(rng, u, variants):
+	"""a random script over 1-2 writable genome sets, 1-2 signature objects: make / observe / match / edit in any order"""
+	n_s = len(u['sigfiles'])
+	bases = sorted(variants)
+	steps = []
+	slot_base = {}
+	for g, base in enumerate(rng.sample(bases, rng.choice([1, min(2, len(bases))]))):
+		steps.append(['gsetrw', g, base])
+		slot_base[g] = base
+	steps.append(rng.choice([['sigs', 0, 0], ['memsigs', 0, 0, rng.choice(MEM_SIGS), seq_idform(rng, u, 0)]]))
+	sslots = [0]
+	if rng.random() < 0.5:
+		si = rng.randrange(n_s)
+		steps.append(['memsigs', 1, si, rng.choice(MEM_SIGS), seq_idform(rng, u, si)])
+		sslots.append(1)
+	handles = set()
+	for _ in range(rng.randint(5, 10)):
+		m = rng.choice(['make'] * 4 + ['edit'] * 3 + ['match'] * 2 + (['observe'] * 4 if handles else []) + ['badmatch'])
+		g = rng.choice(sorted(slot_base))
+		if m == 'make':
+			h = rng.randrange(3)
+			steps.append(['make', h, g, rng.choice(sslots), rng.random() < 0.3])
+			handles.add(h)
+		elif m == 'edit':
+			steps.append(['edit', g, rng.choice(variants[slot_base[g]] + [slot_base[g]]), rng.choice(SEQ_EDIT_HOWS)])
+			if rng.random() < 0.7:
+				h = rng.randrange(3)
+				steps.append(['make', h, g, rng.choice(sslots), False])
+				handles.add(h)
+		elif m == 'match':
+			si = rng.randrange(n_s)
+			steps.append(['match', g, rng.choice([u['sigfiles'][si]['attr']] * 3 + ATTRS), si, seq_idform(rng, u, si), rng.choice(['str', 'attribute'])])
+		elif m == 'observe':
+			steps.append(['observe', rng.choice(sorted(handles)), rng.randrange(len(u['params'])), rng.randrange(len(u['queries'])), rng.choice(SEQ_QFORMS)])
+		else:
+			steps.append(['badmatch', g, rng.choice(SEQ_BADM), rng.randrange(n_s)])
+	for h in sorted(handles):
+		steps.append(['observe', h, 0, 0, 'params'])
+	return steps
+
+
+def gen_seq_edits(ctx, rng):
+	"""a genome set edited through its own session between two constructions / matchings on the SAME objects"""
+	n_e = 0
+	for _ in range(ctx.pick(4, 40)):
+		got = seq_edit_universe(rng)
+		if got is None:
+			ctx.count('seq-generator-rejected')
+			continue
+		u, variants = got
+		for base, kind in u.get('edits', []):
+			ctx.count('seq:edit-kind:' + kind)
+		for name, steps in seq_edit_templates(rng, u, variants):
+			ctx.count('seq:template:' + name)
+			yield 'seq', dict(u, steps=steps)
+			n_e += 1
+		for _ in range(ctx.pick(4, 12)):
+			yield 'seq', dict(u, steps=seq_edit_random_steps(rng, u, variants))
+			ctx.count('seq:template:random-edits')
+			n_e += 1
+	ctx.count('stream:genome-set-edited-between-uses', n_e)
+
 
 NAME_STEMS = ['a', 'b', 'x.tar', 'a.', '.hid', '', 'é', 'a b', '.']
 NAME_EXTS = ['.gdb', '.db', '.gs', '.h5', '.GDB', '.GS', '.gdb.', '.gsx', '', '.txt', '.db.bak', '.H5', '.g.s']
@@ -4014,6 +4295,7 @@ def generate(ctx):
 	yield from gen_cli_forms(ctx, rng)
 	yield from gen_db_layouts(ctx, rng)
 	yield from gen_seq(ctx, rng)
+	yield from gen_seq_edits(ctx, rng)
 
 	ctx.exhaustive = True
 	ctx.extra['exhaustive_scope'] = (f'load: for each of the 4 identifier attributes, every order of the signatures of <= {N} genomes x '
